@@ -3,10 +3,16 @@
 import json, os
 V = os.path.dirname(os.path.dirname(os.path.abspath(__file__)))
 rs = json.load(open(os.path.join(V, 'evidence', 'sensitivity.json')))['results']
+accepted = {}
+import glob
+for mf in glob.glob(os.path.join(V, 'seeded', '*', 'meta.json')):
+    m = json.load(open(mf))
+    if m.get('accepted_miss'):
+        accepted[m['seed_id']] = m['accepted_miss']
 print('| seeded change | property | what it needs to manifest | suite still green | demo (repo / change) | quick checks that report VIOLATION |')
 print('|---|---|---|---|---|---|')
 for r in rs:
     others = sorted(k for k, v in r.get('checks', {}).items() if k not in r.get('caught_by', []))
     print('| %s | %s | %s | %s | %s / %s | %s%s |' % (r['seed_id'], r['property'], r.get('needs', ''), 'yes' if r.get('suite_passes') else 'NO',
-          r.get('demo_on_repo'), r.get('demo_on_change'), ', '.join(r.get('caught_by', [])) or '**none**',
+          r.get('demo_on_repo'), r.get('demo_on_change'), ', '.join(r.get('caught_by', [])) or ('**none** (accepted miss: %s)' % accepted.get(r['seed_id'], 'see 8.3')),
           (' (ran, silent: ' + ', '.join(others) + ')') if others else ''))
